@@ -118,7 +118,7 @@ def handle : Sexp → Option Sexp
       let fl ← allSome Sexp.string? flags
       let Sy : Syms := { prims := ← allSome decSym prims, vars := ← allSome decSym vars,
                          fixF3 := fl.contains "C05-F3", fixF4 := fl.contains "C05-F4",
-                         fixF2 := fl.contains "C05-F2" }
+                         fixF2 := fl.contains "C05-F2", fixF5 := fl.contains "C05-F5" }
       let cs ← allSome Sexp.string? cs
       let ts ← allSome decProg progs
       let parsed := cs.map (fun c => parse Sy c.toList)
@@ -140,7 +140,7 @@ def handle : Sexp → Option Sexp
       let fl ← allSome Sexp.string? flags
       let Sy : Syms := { prims := ← allSome decSym prims, vars := ← allSome decSym vars,
                          fixF3 := fl.contains "C05-F3", fixF4 := fl.contains "C05-F4",
-                         fixF2 := fl.contains "C05-F2" }
+                         fixF2 := fl.contains "C05-F2", fixF5 := fl.contains "C05-F5" }
       let cs ← allSome Sexp.string? cs
       let ts ← allSome decProg progs
       let parsed := cs.map (fun c => parse Sy c.toList)
